@@ -23,6 +23,7 @@ Two layers.
      ignoreErrors(*cs)   appends to maskedErrors
      library edits       append an object / remove the object carrying an id
      write(sink)         the root element keeps the namespace it was loaded with
+     queries             len / triangleset() / scene.objects(...) change nothing that is modelled
    A raised constructor leaves the caller's variable as it was: the slot is unchanged.
    Tied to the source by props/c20.py (real per-document observables of interleaved runs vs
    this machine's projection, module-state monitor, object-graph disjointness, solo runs).
@@ -191,6 +192,8 @@ inductive Op
   | remove (lib : Lib) (id : String)
   /-- `doc.write(sink)` -/
   | save
+  /-- read-only public queries (len, triangleset(), scene.objects(...)): no modelled state changes -/
+  | query
 deriving DecidableEq, Repr
 
 /-- one library loader: the children in document order whose tag is in the document's
@@ -243,6 +246,8 @@ def apply : Op → FrameOp DocState Out
     else (d, .missing)
   | .save, d =>
     if d.live then (d, .saved d.ns) else (d, .nodoc)
+  | .query, d =>
+    if d.live then (d, .ok) else (d, .nodoc)
 
 /-- a concrete schedule: (document, operation) pairs -/
 abbrev Sched := List (Nat × Op)
